@@ -79,8 +79,9 @@ T = {
          "Trust: as C01 plus HiGHS returning an optimal solution of the programme it is given, good_lp passing it on unchanged, floating-point thresholds, the Debug rendering of good_lp parsed by the harness.",
          "Lean 4 proof (ILP model sound+complete for the cover problem, candidates, cost) + ILP dump vs model + exact optima vs real solver", "5 (C18), 9"),
  "C19": ("PARTIAL. Lean theorems: fill_random is a masked projection of the word stream for every generator, always well formed, every table position is a distinct stream bit, calls use disjoint words; "
-         "fairness and thread-locality of rand::thread_rng are runtime facts of another crate - covered by the statistical run the property specifies (256 draws x n = 0..12 x both types x 1 and 16 threads).",
-         "Trust: as C01 plus the rand crate.", "Lean 4 proof for every word stream + statistical run on the real generator", "5 (C19), 9"),
+         "tie: hook verif_rng injects a word stream that fill_random reads in place of thread_rng - random() of both types, n = 0..12, is compared with the model on exact, longer, shorter, all-ones and all-equal streams (table, words consumed, panic when the stream is too short); "
+         "fairness and thread-locality of rand::thread_rng are runtime facts of another crate - covered by the statistical run the property specifies (256 draws x n = 0..12 x both types x 1 and 16 threads: well-formedness, both values at every position, every variable essential in some draw, distinct draws).",
+         "Trust: as C01 plus the rand crate; under injection the hook bypasses the expression `thread_rng().next_u64()` (that expression is exercised by the statistical run only).", "Lean 4 proof for every word stream + injected-stream differential run + statistical run on the real generator", "5 (C19), 9"),
 }
 
 def main():
@@ -110,7 +111,7 @@ def main():
             guard="--cfg volute_verif",
             enable="harness/.cargo/config.toml sets build.rustflags = [\"--cfg\", \"volute_verif\"]; the harness depends on /repo by path",
             baseline_off_cmd="cd /repo && cargo test --workspace --no-fail-fast --offline",
-            source_commits=["d7fd620", "8b90f63", "8cb2ff1"],
+            source_commits=["d7fd620", "8b90f63", "8cb2ff1", "72470a9"],
             add_only=True,
         ),
         engines=[dict(name="lean-model", path="lean/", serves_properties=sorted(claimed),
